@@ -458,4 +458,7 @@ Qed.
 Example roundtrip_example_parsed :
   lex_from_str repaired (print_spec (ex_layout true) ex_spec) 0 true false [] =
     Done (POk (spec_of false (ex_layout true) ex_spec)).
-Proof. apply lex_roundtrip; apply roundtrip_example. Qed.
+Proof.
+  destruct roundtrip_example as [Hwf _]. destruct (Hwf true) as [H1 H2].
+  exact (lex_roundtrip true false (ex_layout true) ex_spec H1 H2).
+Qed.
